@@ -643,6 +643,7 @@ def compare_terms(t1, t2, signs: dict, seed: int = 0, region_env=None):
     names = sorted(set(holes_of(t1)) | set(holes_of(t2)))
     differ = None
     agree = 0
+    small = []      # relative differences below the coarse threshold, with their witnesses
     for k in range(3):
         env = {}
         for i, nm in enumerate(names):
@@ -663,8 +664,13 @@ def compare_terms(t1, t2, signs: dict, seed: int = 0, region_env=None):
             break
         if abs(v1 - v2) / scale < 1e-11:
             agree += 1
+        small.append((abs(v1 - v2) / scale, {"at": env, "values": [v1, v2]}))
     if differ:
         return ("differ", differ)
+    if len(small) >= 2 and min(r for r, _w in small) > 1e-10:
+        # a disagreement of 1e-10 .. 1e-6 relative at EVERY sample point is not rounding of the model
+        # evaluation (which is ~1e-15): e.g. a mistyped constant
+        return ("differ", max(small, key=lambda rw: rw[0])[1])
     if agree == 3:
         return ("unknown", hard or "canonical forms differ but the model evaluation agrees "
                                    "(normaliser incomplete here)")
